@@ -591,3 +591,81 @@ func VerifC09NullaryOperands() {
 	}
 	verifCover("C09/nullary/end")
 }
+
+// VerifC09Interpolation: an expression inside `\( )` of a string literal means what it means outside: a literal with
+// 1-2 (thorough 3) interpolations, each an expression from a pool with and without redundant / needed parentheses,
+// separated by literal text that may itself hold parentheses and backslashes, equals the explicit concatenation of
+// the pieces. Concrete document (the pool decides the shapes), choices are solver variables.
+var c09InterpPool = []string{".a", "(.a)", ".b | length", ".b | (length + 1)", "[.a, (.c)] | .[1]", ".c + (1 * 2)", "((.c))", ".b | (.[0], .[1]) | select(. == 2)"}
+var c09InterpSeps = []string{"", ")", " and ", "(", "()", "\\\\"}
+
+func VerifC09Interpolation() {
+	maxN := verifParam("interp", 2)
+	n := 1 + verifChoice("n", maxN)
+	lit := ""
+	ref := ""
+	for i := 0; i < n; i++ {
+		e := c09InterpPool[verifChoice("e"+verifItoa(int64(i)), len(c09InterpPool))]
+		sep := c09InterpSeps[verifChoice("sep"+verifItoa(int64(i)), len(c09InterpSeps))]
+		lit += sep + "\\(" + e + ")"
+		plain := sep
+		if sep == "\\\\" {
+			plain = "\\"
+		}
+		ref += plain + "|" + c09InterpOne(e) + "|"
+	}
+	tail := c09InterpSeps[verifChoice("tail", verifParam("tails", 2))]
+	lit += tail
+	if tail == "\\\\" {
+		ref += "\\"
+	} else {
+		ref += tail
+	}
+	verifObserve("literal", lit)
+	InitExpressionParser()
+	node, err := ExpressionParser.ParseExpression("\"" + lit + "\"")
+	verifAssert(err == nil, "C09/interpolation-rejected")
+	if err != nil {
+		return
+	}
+	res, err := vEval(node, c09InterpDoc())
+	verifAssert(err == nil, "C09/interpolation-failed")
+	if err != nil {
+		return
+	}
+	nodes := vNodes(res)
+	verifAssert(len(nodes) == 1, "C09/interpolation-result-count")
+	if len(nodes) != 1 {
+		return
+	}
+	// the reference marks the pieces with | so that a piece swallowed by its neighbour shows
+	got := nodes[0].Value
+	want := ""
+	for i := 0; i < len(ref); i++ {
+		if ref[i] != '|' {
+			want += string(ref[i])
+		}
+	}
+	verifObserve("got", got)
+	verifAssert(got == want, "C09/interpolated-expression-differs-from-the-expression-on-its-own")
+	verifCover("C09/interpolation/end")
+}
+
+func c09InterpDoc() *CandidateNode {
+	return vDoc(vMap(vStr("a"), vStr("cat"), vStr("b"), vSeq(vInt("1"), vInt("2")), vStr("c"), vInt("4")))
+}
+
+// the piece on its own: evaluated as an expression of its own, rendered as interpolation renders a scalar
+func c09InterpOne(e string) string {
+	res, err := vEval(vParse(e), c09InterpDoc())
+	if err != nil {
+		verifFail("C09/interpolation-pool-expression-failed")
+		return ""
+	}
+	nodes := vNodes(res)
+	if len(nodes) != 1 || nodes[0].Kind != ScalarNode {
+		verifFail("C09/interpolation-pool-expression-not-a-scalar")
+		return ""
+	}
+	return nodes[0].Value
+}
